@@ -4,7 +4,7 @@ import time
 from array import array
 
 from ..msgs import create_message, encode_message, decode_message
-from ..errors import IpmiTimeoutError
+from ..errors import IpmiTimeoutError, NotSupportedError
 from ..logger import log
 from ..interfaces.ipmb import IpmbHeaderReq, checksum, rx_filter, encode_ipmb_msg
 
@@ -35,6 +35,10 @@ class IpmbDev(object):
         pass
 
     def is_ipmc_accessible(self, target):
+        if target.routing and len(target.routing) > 1:
+            raise NotSupportedError('bridging (a routing with more than one '
+                                    'hop) is not supported by the ipmb-dev '
+                                    'interface')
         self._inc_sequence_number()
 
         header = IpmbHeaderReq()
@@ -108,6 +112,10 @@ class IpmbDev(object):
 
         Returns the received data as bytestring
         """
+        if target.routing and len(target.routing) > 1:
+            raise NotSupportedError('bridging (a routing with more than one '
+                                    'hop) is not supported by the ipmb-dev '
+                                    'interface')
         self._inc_sequence_number()
 
         # assemble IPMB header
